@@ -34,6 +34,10 @@ type cfgCase struct {
 	MaxRedirects int    `json:"config_max_redirects"`
 	Hops         int    `json:"redirect_chain"`
 	Tag          string `json:"tag"`
+	// Uses: the SAME client.Config value (and the maps inside it) is used for this many consecutive
+	// requests, each response closed before the next request: a Config is plain data of the caller,
+	// every use must give the same request and leave the caller's maps untouched.
+	Uses int `json:"uses_of_the_same_config"`
 }
 
 type cfgRig struct {
@@ -109,6 +113,10 @@ func cfgCombo(e *ev.Env, c *ev.Case, fixed *cfgCase) {
 			}
 		}
 		cc.Tag = r.StringFrom(gen.AlphaNum, r.Range(1, 6))
+		cc.Uses = r.Range(1, 3)
+	}
+	if cc.Uses < 1 {
+		cc.Uses = 1
 	}
 	rig := newCfgRig()
 	cl := client.NewWithClient(rig.fc)
@@ -131,9 +139,76 @@ func cfgCombo(e *ev.Env, c *ev.Case, fixed *cfgCase) {
 		cfg.FormData = map[string]string{"f": "f" + cc.Tag}
 		wantPayload = "form:f" + cc.Tag
 	case "file":
-		cfg.File = []*client.File{client.AcquireFile(client.SetFileName("n"+cc.Tag+".txt"), client.SetFileFieldName("up"), client.SetFileReader(io.NopCloser(strings.NewReader(cc.Tag))))}
 		wantPayload = "file:n" + cc.Tag + ".txt:" + strconv.Itoa(len(cc.Tag))
 	}
+	copyMap := func(m map[string]string) map[string]string {
+		if m == nil {
+			return nil
+		}
+		c := make(map[string]string, len(m))
+		for k, v := range m {
+			c[k] = v
+		}
+		return c
+	}
+	before := map[string]map[string]string{"Header": copyMap(cfg.Header), "Param": copyMap(cfg.Param), "Cookie": copyMap(cfg.Cookie),
+		"PathParam": copyMap(cfg.PathParam), "FormData": copyMap(cfg.FormData)}
+	mustTimeOut := cc.TimeoutMs > 0 && cc.TimeoutMs < cc.DelayMs
+	for use := 0; use < cc.Uses; use++ {
+		if use > 0 && mustTimeOut {
+			time.Sleep(time.Duration(cc.DelayMs+10) * time.Millisecond) // let the abandoned exchange finish
+		}
+		if !cfgOnce(e, c, cc, cl, &cfg, id, wantPayload, use) {
+			break
+		}
+	}
+	after := map[string]map[string]string{"Header": cfg.Header, "Param": cfg.Param, "Cookie": cfg.Cookie, "PathParam": cfg.PathParam, "FormData": cfg.FormData}
+	for _, f := range []string{"Header", "Param", "Cookie", "PathParam", "FormData"} {
+		same := len(before[f]) == len(after[f])
+		for k, v := range before[f] {
+			if w, ok := after[f][k]; !ok || w != v {
+				same = false
+			}
+		}
+		if !same {
+			e.Violation(c, "fidelity|config|caller-map-modified|"+f, "the map the caller put into the Config was changed by sending the request",
+				map[string]any{"case": cc, "field": f, "before": before[f], "after": after[f]})
+		}
+	}
+	e.Nontrivial("cfg", cc.Payload, cc.Entry, cc.Method, strconv.FormatBool(mustTimeOut), strconv.Itoa(cc.MaxRedirects), strconv.Itoa(cc.Hops), strconv.FormatBool(cc.ClientTOMs > 0), strconv.FormatBool(cc.TimeoutMs > 0), strconv.Itoa(cc.Uses))
+	e.Stat("config_combinations", 1)
+	if cc.Uses > 1 {
+		e.Stat("configs_used_repeatedly", 1)
+	}
+	// drain what a timed-out call left behind, and empty the pools (see runOwnSchedule)
+	time.Sleep(time.Duration(cc.DelayMs+10) * time.Millisecond)
+	rig.fc.CloseIdleConnections()
+	_ = rig.ln.Close()
+	runtime.GC()
+	runtime.GC()
+}
+
+// cfgOnce sends one request with the (shared) Config and judges it. use > 0: a repeated use of
+// the same Config value. Returns false when further uses make no sense (a violation was reported).
+func cfgOnce(e *ev.Env, c *ev.Case, cc *cfgCase, cl *client.Client, cfgp *client.Config, id, wantPayload string, use int) bool {
+	ok := true
+	report := func(sig, what string, det map[string]any) {
+		ok = false
+		if use > 0 {
+			// the first use was fine: the same configuration gave a different request
+			sig = "determinism|config-reused|" + strings.TrimPrefix(sig, "fidelity|")
+			if i := strings.Index(sig, "|with-"); i > 0 {
+				sig = sig[:i] // the payload kind is beside the point of a repeated use
+			}
+			det["use"] = use + 1
+		}
+		e.Violation(c, sig, what, det)
+	}
+	if cc.Payload == "file" {
+		// File objects are pooled and handed over to the request: fresh ones per use
+		cfgp.File = []*client.File{client.AcquireFile(client.SetFileName("n"+cc.Tag+".txt"), client.SetFileFieldName("up"), client.SetFileReader(io.NopCloser(strings.NewReader(cc.Tag))))}
+	}
+	cfg := *cfgp
 	url := "http://cfg.test/c/:id"
 	var resp *client.Response
 	var err error
@@ -172,30 +247,30 @@ func cfgCombo(e *ev.Env, c *ev.Case, fixed *cfgCase) {
 	overLimit := cc.MaxRedirects > 0 && cc.Hops > cc.MaxRedirects
 	switch {
 	case mustTimeOut && err == nil:
-		e.Violation(c, "fidelity|config-timeout|not-applied"+with, "Config.Timeout is shorter than the server delay, the call must fail with ErrTimeoutOrCancel", det)
+		report("fidelity|config-timeout|not-applied"+with, "Config.Timeout is shorter than the server delay, the call must fail with ErrTimeoutOrCancel", det)
 	case mustTimeOut && !errors.Is(err, client.ErrTimeoutOrCancel):
-		e.Violation(c, "fidelity|config-timeout|other-error|"+sigWord(err.Error()), "unexpected error instead of the timeout", det)
+		report("fidelity|config-timeout|other-error|"+sigWord(err.Error()), "unexpected error instead of the timeout", det)
 	case mustTimeOut && (el < time.Duration(cc.TimeoutMs)*time.Millisecond || el >= time.Duration(cc.DelayMs)*time.Millisecond):
-		e.Violation(c, "fidelity|config-timeout|fired-at-other-instant"+with, "the call did not time out at Config.Timeout", det)
+		report("fidelity|config-timeout|fired-at-other-instant"+with, "the call did not time out at Config.Timeout", det)
 	case mustTimeOut:
 	case overLimit && err == nil && status == 200:
-		e.Violation(c, "fidelity|config-max-redirects|limit-not-enforced"+with, "a redirect chain longer than Config.MaxRedirects was followed to its end", det)
+		report("fidelity|config-max-redirects|limit-not-enforced"+with, "a redirect chain longer than Config.MaxRedirects was followed to its end", det)
 	case overLimit && err == nil && status == 302:
-		e.Violation(c, "fidelity|config-max-redirects|not-applied"+with, "Config.MaxRedirects > 0 but the first redirect was handed back unfollowed", det)
+		report("fidelity|config-max-redirects|not-applied"+with, "Config.MaxRedirects > 0 but the first redirect was handed back unfollowed", det)
 	case overLimit:
 		if errors.Is(err, client.ErrTimeoutOrCancel) {
-			e.Violation(c, "fidelity|config-timeout|spurious"+with, "the call timed out although no configured timeout had elapsed", det)
+			report("fidelity|config-timeout|spurious"+with, "the call timed out although no configured timeout had elapsed", det)
 		}
 	case err != nil && errors.Is(err, client.ErrTimeoutOrCancel):
 		sig := "fidelity|config-timeout|not-applied" + with
 		if cc.ClientTOMs == 0 {
 			sig = "fidelity|config-timeout|spurious" + with
 		}
-		e.Violation(c, sig, "Config.Timeout is longer than the server delay (or absent): the call must succeed", det)
+		report(sig, "Config.Timeout is longer than the server delay (or absent): the call must succeed", det)
 	case err != nil:
-		e.Violation(c, "fidelity|config|send-error|"+sigWord(err.Error()), "the call failed", det)
+		report("fidelity|config|send-error|"+sigWord(err.Error()), "the call failed", det)
 	case cc.MaxRedirects > 0 && cc.Hops > 0 && status == 302:
-		e.Violation(c, "fidelity|config-max-redirects|not-applied"+with, "Config.MaxRedirects > 0 but the redirect was handed back unfollowed", det)
+		report("fidelity|config-max-redirects|not-applied"+with, "Config.MaxRedirects > 0 but the redirect was handed back unfollowed", det)
 	case cc.Hops > 0 && cc.MaxRedirects == 0:
 		// not followed, by configuration
 	default:
@@ -208,18 +283,11 @@ func cfgCombo(e *ev.Env, c *ev.Case, fixed *cfgCase) {
 		for _, k := range []string{"id", "q", "h", "c", "ua", "ref", "m", "p"} {
 			if got[k] != want[k] {
 				det["item"], det["expected"], det["received"] = k, want[k], got[k]
-				e.Violation(c, "fidelity|config|"+map[string]string{"id": "path-param", "q": "param", "h": "header", "c": "cookie", "ua": "user-agent", "ref": "referer", "m": "method", "p": "payload"}[k]+"-not-applied"+with,
+				report("fidelity|config|"+map[string]string{"id": "path-param", "q": "param", "h": "header", "c": "cookie", "ua": "user-agent", "ref": "referer", "m": "method", "p": "payload"}[k]+"-not-applied"+with,
 					fmt.Sprintf("Config item %q did not take effect in combination with the others", k), det)
 				break
 			}
 		}
 	}
-	e.Nontrivial("cfg", cc.Payload, cc.Entry, cc.Method, strconv.FormatBool(mustTimeOut), strconv.Itoa(cc.MaxRedirects), strconv.Itoa(cc.Hops), strconv.FormatBool(cc.ClientTOMs > 0), strconv.FormatBool(cc.TimeoutMs > 0))
-	e.Stat("config_combinations", 1)
-	// drain what a timed-out call left behind, and empty the pools (see runOwnSchedule)
-	time.Sleep(time.Duration(cc.DelayMs+10) * time.Millisecond)
-	rig.fc.CloseIdleConnections()
-	_ = rig.ln.Close()
-	runtime.GC()
-	runtime.GC()
+	return ok
 }
